@@ -57,7 +57,7 @@ REGISTRY = {
     },
     "C12": {
         "title": "automatic versions strictly increase per key",
-        "teq": [seq({"seedoff": 12}), seq({"extreme": 1, "n": 1, "ops": 60, "seedoff": 112}, {"extreme": 1})],
+        "teq": [seq({"seedoff": 12, "autocheck": 1}, {"autocheck": 1}), seq({"extreme": 1, "autocheck": 1, "n": 1, "ops": 60, "seedoff": 112}, {"extreme": 1, "autocheck": 1})],
         "nontrivial_rule": "as C01; the second stream adds explicit timestamps 2^64-2 and 2^64-1 and the directed replay of known finding F2; an implementation-side oracle flags every automatically timestamped call answered OlderTimestamp on a key the application did not pin at the maximum",
         "assumptions": ["clock shard index and value are read through hook H4 after every call"],
     },
@@ -69,8 +69,8 @@ REGISTRY = {
     },
     "C14": {
         "title": "range queries",
-        "teq": [seq({"seedoff": 14})],
-        "nontrivial_rule": "as C01; range queries with empty/extreme/inverted bounds, prefixes and limits 0,1,2,1000 are part of every sequence",
+        "teq": [seq({"seedoff": 14}), seq({"seedoff": 114, "focus": 1, "n": 6, "ops": 60}, {"focus": 1, "seedoff": 114})],
+        "nontrivial_rule": "as C01; range queries with empty/extreme/inverted bounds, prefixes and limits 0,1,2,1000 are part of every sequence; a second stream (focus=1, TTL stores) makes a third of the calls range queries with limits 1..5 over key sets where about a third of the inserts are expired on arrival, so skipped index entries interact with the limit",
         "assumptions": ["crossbeam_skiplist::SkipMap iteration is modelled as the sorted binding list", "the concurrent clauses are not decided by this check"],
     },
     "C02": {
@@ -106,7 +106,12 @@ REGISTRY = {
             {"engine": "recrash", "quick": {"n": 1, "points": 8}, "thorough": {"tier": "thorough"}, "oracle": True, "mismatch_is_failure": False, "timeout": 3400,
              "nontrivial": lambda case, res: "level=2" in case and res.startswith("ok") and "keys=-" not in res,
              "distinct_key": lambda case, res: case.split("plan=")[-1] + res,
-             "what": "crash images of traced workloads (TTL on and off, processes killed without close) are recovered by the real code with recovery's own device writes traced (hook H1); crash points x subsets x tearing INSIDE that recovery give second-level images, each reopened by the real code and by Model.Recovery (must agree); oracle: every second-level image reopens to exactly the contents the first recovery reported; images whose recovery wrote nothing are reopened twice"}],
+             "what": "crash images of traced workloads (TTL on and off, processes killed without close) are recovered by the real code with recovery's own device writes traced (hook H1); crash points x subsets x tearing INSIDE that recovery give second-level images, each reopened by the real code and by Model.Recovery (must agree); oracle: every second-level image reopens to exactly the contents the first recovery reported; images whose recovery wrote nothing are reopened twice"},
+            {"engine": "crash", "quick": {"n": 1, "points": 8, "ttl": 1, "seedoff": 404}, "thorough": {"tier": "thorough", "ttl": 1, "seedoff": 404}, "oracle": True, "mismatch_is_failure": True, "timeout": 3400,
+             "nontrivial": lambda case, res: "plan=" in case and res.startswith("ok") and "keys=-" not in res,
+             "distinct_key": lambda case, res: res,
+             "what": "first-level recoveries with TTL on: crash images of TTL workloads whose expired-on-arrival generations have on-disk sizes ending in the last 200 bytes of a block and are followed by live records; the real recovery's result AND the device bytes it leaves (its retirement writes) must equal Model.Recovery.open_image, so a repair write that touches a block of a live record is a concrete failing image"},
+        ],
         "nontrivial_rule": "a case is one second-level crash image (a crash inside a recovery of a crash image); non-trivial = recovered at least one key; distinct by (first-level plan, inner plan, contents)",
         "assumptions": ["as C02; more than 1024 coalesced extents in one retirement call are not generated by this engine (finding F1, see DESIGN section 8)"],
     },
